@@ -1,1 +1,2 @@
 pub mod soup;
+pub mod svgen;
